@@ -186,12 +186,16 @@ func (fs *FS) newFile(path string, flag int, mode hackpadfs.FileMode) *file {
 // If the file was removed or renamed away since it was opened, the handle stays usable but no longer has a name:
 // like with an os.File, writing through it must not make the old name exist again.
 func (f *fileData) save() error {
-	_, err := f.fs.getFile(f.path)
+	current, err := f.fs.getFile(f.path)
 	if errors.Is(err, hackpadfs.ErrNotExist) {
 		return nil
 	}
 	if err != nil {
 		return err
+	}
+	if current.Mode().IsDir() != f.Mode().IsDir() {
+		// the name was reused for a different kind of file: this handle's file is gone
+		return nil
 	}
 	return f.fs.setFile(f.path, f)
 }
